@@ -10,6 +10,7 @@ import (
 	"net"
 	"strings"
 	"sync"
+	"sync/atomic"
 	"time"
 
 	"github.com/arloliu/go-secs/v2/hsms"
@@ -925,6 +926,100 @@ func planS1(rg *rand.Rand) (cfgT, runFn) {
 		}
 		e.closeConn()
 		e.postClose(5 * time.Millisecond)
+		return hdr, tags
+	}
+}
+
+// ---------------------------------------------------------------------------------------------
+// straggler: an event of an EARLIER generation must not be replayed onto the current connection.
+// A data handler blocks inline on generation 1's recv goroutine; generation 1 is then dropped by
+// something else (a linktest whose response is never read -> T6, or the peer closing the pipe ->
+// the next linktest write fails); the bounded teardown join runs into a SMALL close timeout and
+// abandons the wedged goroutine; the reconnect loop brings generation 2 to Selected; only then the
+// handler returns and the straggler reads its long-closed socket. Nothing happens on generation
+// 2's connection, so it must stay Selected: no State() change, no notification, no further dial.
+
+var stragglerSeq atomic.Int32
+
+func planStraggler(rg *rand.Rand) (cfgT, runFn) {
+	cfg := baseCfg(rg, true)
+	cfg.t6 = time.Duration(50+rg.Intn(30)) * time.Millisecond
+	cfg.closeTimeout = time.Duration(60+rg.Intn(60)) * time.Millisecond
+	cfg.linktest = time.Duration(15+rg.Intn(15)) * time.Millisecond
+	cfg.blockData = true
+	_ = rg.Intn(2)
+	peerClose := stragglerSeq.Add(1)%2 == 0 // both dropping causes in every run, however few instances
+	watch := time.Duration(300+rg.Intn(150)) * time.Millisecond
+	return cfg, func(e *env) (string, []string) {
+		cause := "linktestT6"
+		if peerClose {
+			cause = "peerClose"
+		}
+		hdr := fmt.Sprintf("cause=%s t6=%v closeTimeout=%v linktest=%v watch=%v buffered=%v", cause, cfg.t6, cfg.closeTimeout, cfg.linktest, watch, cfg.buffered)
+		tags := []string{"straggler:" + cause}
+		if e.open(hsms.OpenBackground, 3*time.Second) != eOK {
+			e.anomaly("active Open failed")
+			return hdr, tags
+		}
+		p1 := e.nextPeer(stepWait)
+		if p1 == nil || !acceptSelect(e, p1, 0) || !e.waitState(2, stepWait) {
+			e.anomaly("generation 1 did not reach Selected")
+			return hdr, tags
+		}
+		// wedge generation 1's recv goroutine inside the data handler (S1F1, no reply expected)
+		if p1.send(ctl(e.sid, 1, 1, 0, 31337)) != nil {
+			e.anomaly("data frame write failed")
+			return hdr, tags
+		}
+		select {
+		case <-e.dataEntered:
+		case <-time.After(stepWait):
+			e.anomaly("the data handler was not invoked")
+			return hdr, tags
+		}
+		e.note("gen1 recv goroutine wedged in the data handler")
+		if peerClose {
+			p1.drop()
+		}
+		// generation 1 is dropped by the linktest (T6 / write error), its teardown abandons the
+		// wedged goroutine after the close timeout, the reconnect loop dials generation 2
+		p2 := e.nextPeer(stepWait + cfg.t6 + cfg.closeTimeout)
+		if p2 == nil {
+			e.anomaly("the library did not dial generation 2")
+			return hdr, tags
+		}
+		if !acceptSelect(e, p2, 0) || !e.waitState(2, stepWait) {
+			e.anomaly("generation 2 did not reach Selected")
+			return hdr, tags
+		}
+		if !e.quiesce(2, "gen2 last=selectRsp:0, gen1 handler still blocked") {
+			return hdr, tags
+		}
+		dials := e.nDials.Load()
+		nBefore := len(e.r.snapshot())
+		tags = append(tags, "straggler:released-after-gen2-selected")
+		e.note("release the gen1 handler (dials so far %d)", dials)
+		close(e.dataRelease)
+		end := time.Now().Add(watch)
+		for time.Now().Before(end) {
+			s := e.state()
+			if s != 2 || p2.isDead() || e.nDials.Load() != dials {
+				e.r.add('S', s, 0, "straggler-watch")
+				e.note("State()=%d, gen2 link closed by the library=%v, dials %d->%d", s, p2.isDead(), dials, e.nDials.Load())
+				e.failf("replayed generation: after the blocked generation-1 data handler returned, generation 2 (Selected, nothing happened on its connection) was disturbed (State() left Selected / its link was closed / another dial)")
+				return hdr, tags
+			}
+			time.Sleep(500 * time.Microsecond)
+		}
+		for _, en := range e.r.snapshot()[nBefore:] {
+			if en.k == 'N' {
+				e.failf("replayed generation: notification %d->%d delivered after the blocked generation-1 data handler returned although nothing happened on generation 2's connection", en.a, en.b)
+				return hdr, tags
+			}
+		}
+		e.quiesce(2, "gen2 undisturbed after the gen1 straggler ran")
+		e.closeConn()
+		e.postClose(4 * time.Millisecond)
 		return hdr, tags
 	}
 }
